@@ -33,7 +33,7 @@ BUDGET = {"quick": 480, "thorough": 8000}
 SHRINK_SECONDS = {"quick": 40, "thorough": 300}
 RULE = (
     "case = (modes, rational frequencies + optional interaction, 1-3 perturbation words with rational coefficients, "
-    "input form scalar / 1x1 matrix / 2-block matrix, optional operator mask, order K). Non-trivial = (>= 2 modes or a "
+    "input form scalar / 1x1 matrix / 2-block matrix / 3-block matrix with pairwise different offsets / 2 blocks with fully_diagonalize=[1], optional operator mask, order K). Non-trivial = (>= 2 modes or a "
     "number-dependent denominator) and H_tilde or U at order >= 2 has a non-zero matrix element on a column whose "
     "occupation contains a boundary value (0, or spin/fermion occupation)."
 )
@@ -41,13 +41,23 @@ ASSUMPTIONS = [
     "every Fock-state pair coupled within K x (word degree) shifts is non-degenerate with |dE| >= 1/4 (constructed and verified by enumeration)",
     "comparison restricted to input states at least K x degree + 1 away from the truncation edge",
 ]
-REQUIRED_CLASSES = {"all": ["modes>=2", "has-fermion", "has-boson", "form=scalar", "form=blocks", "interaction", "operator-mask", "matrix-valued-mask"]}
+REQUIRED_CLASSES = {"all": ["modes>=2", "has-fermion", "has-boson", "form=scalar", "form=blocks", "form=blocks3", "form=blocks_fd", "interaction", "operator-mask", "matrix-valued-mask"]}
 
 MODE_SETS = [
     [["b", "a"]], [["b", "a"], ["s", "s"]], [["f", "f"], ["f", "g"]], [["b", "a"], ["f", "f"]], [["f", "f"], ["f", "g"], ["f", "h"]],
     [["b", "a"], ["b", "b"]], [["l", "l"], ["s", "s"]], [["s", "s"], ["f", "f"]], [["b", "a"], ["f", "f"], ["f", "g"]], [["b", "a"], ["l", "l"]],
 ]
 FREQ = [Fraction(1), Fraction(7, 2), Fraction(45, 4), Fraction(5, 2), Fraction(27, 4), Fraction(3, 2), Fraction(19, 2)]
+
+
+# block layouts of the matrix-valued forms: (energy offsets, integer coupling matrix C with h_1[i][j] = C[i][j] H_1,
+# fully diagonalised blocks).  Mode energies are multiples of 1/16; the offsets and all their differences are odd
+# multiples of 1/32 or 1/64, so no two states of different blocks are closer than 1/64.
+LAYOUTS = {
+    "blocks": ([Fraction(0), Fraction(405, 32)], [[1, 1], [1, -1]], ()),
+    "blocks_fd": ([Fraction(0), Fraction(405, 32)], [[1, 1], [1, -1]], (1,)),
+    "blocks3": ([Fraction(0), Fraction(405, 32), Fraction(1003, 64)], [[1, 1, 2], [1, -1, 1], [2, 1, 3]], ()),
+}
 
 
 @st.composite
@@ -69,7 +79,7 @@ def _case(draw, tier):
     return {
         "modes": modes, "K": K, "words": words, "freq_order": list(perm),
         "interaction": draw(st.sampled_from([None, None, "kerr", "cross"])),
-        "form": draw(st.sampled_from(["scalar", "scalar", "matrix1", "blocks", "matrix2mask"])),
+        "form": draw(st.sampled_from(["scalar", "scalar", "matrix1", "blocks", "matrix2mask", "blocks3", "blocks_fd"])),
         # operator-valued elimination mask: eliminate only the shifts of these perturbation words (and their adjoints)
         "mask_words": sorted(draw(st.sets(st.integers(0, n_words - 1), min_size=1))) if draw(st.integers(0, 2)) == 0 else None,
         # symbolic-power mask  a**(k+p) + Dagger(a)**(k+p): eliminate every pure shift of the first boson/ladder mode by >= p
@@ -210,7 +220,7 @@ def check_case(case, enforce_all=False):
     K = case["K"]
     b = build(case)
     kinds = {k for k, _ in case["modes"]}
-    out.labels += [f"form={case['form']}", f"K={K}"]
+    out.labels += [f"K={K}"]
     if len(case["modes"]) >= 2:
         out.labels.append("modes>=2")
     for k, lab in (("f", "has-fermion"), ("b", "has-boson"), ("s", "has-spin"), ("l", "has-ladder")):
@@ -260,14 +270,19 @@ def check_case(case, enforce_all=False):
                 pick = None
                 idx = (0, 0)
             else:
-                form = "blocks"
-                # two copies with shifted energies as two blocks, coupled by the perturbation
-                delta = sympy.Rational(405, 32)
-                h0 = sympy.Matrix([[H0, 0], [0, H0 + delta]])
-                h1 = sympy.Matrix([[H1, H1], [H1, -H1]])
-                Ht, U, Ui = block_diagonalize([h0, h1], subspace_indices=[0, 1])
+                if form not in ("blocks3", "blocks_fd") or space.D > 260:
+                    form = "blocks"
+                # copies of the mode system with shifted energies as blocks, coupled by the perturbation: every block
+                # pair has its own energy offset, so the solver is called for several block pairs with different H_ii - H_jj
+                offsets, C, fd = LAYOUTS[form]
+                nb_ = len(offsets)
+                h0 = sympy.diag(*[H0 + sympy.Rational(o.numerator, o.denominator) for o in offsets])
+                h1 = sympy.Matrix(nb_, nb_, lambda i, j: C[i][j] * H1)
+                kw_ = {"fully_diagonalize": list(fd)} if fd else {}
+                Ht, U, Ui = block_diagonalize([h0, h1], subspace_indices=list(range(nb_)), **kw_)
                 pick = lambda x: x if (x is zero or x is one) else x[0, 0]  # noqa: E731
                 idx = None
+            out.labels.append(f"form={form}")
             lib = {}
             for n in range(K + 1):
                 if form == "matrix2mask":
@@ -276,8 +291,9 @@ def check_case(case, enforce_all=False):
                     for (i, j), (hh, uu) in list(lib[n].items()):
                         if hh is one:
                             lib[n][(i, j)] = (one if i == j else zero, uu)
-                elif form == "blocks":
-                    lib[n] = {(i, j): (pick(Ht[i, j, n]), pick(U[i, j, n])) for i in range(2) for j in range(2)}
+                elif form in LAYOUTS:
+                    nb_ = len(LAYOUTS[form][0])
+                    lib[n] = {(i, j): (pick(Ht[i, j, n]), pick(U[i, j, n])) for i in range(nb_) for j in range(nb_)}
                 else:
                     lib[n] = {(0, 0): (pick(Ht[0, 0, n]), pick(U[0, 0, n]))}
     except Exception as exc:  # noqa: BLE001
@@ -298,13 +314,15 @@ def check_case(case, enforce_all=False):
     E0 = np.array([float(b["energy"](space.occ(s))) for s in space.states])
     if float(np.abs(np.diag(H0m).real - E0).max()) > 1e-9:
         raise AssertionError("matrix model: H_0 is not the diagonal of the constructed energies")
-    if form in ("blocks", "matrix2mask"):
-        E = np.concatenate([E0, E0 + 405 / 32])
-        T = np.block([[H1m, H1m], [H1m, -H1m]])
-        S = np.zeros((2 * D, 2 * D), dtype=bool)
-        S[:D, :D] = True
-        S[D:, D:] = True
-        nblk = 2
+    if form in LAYOUTS or form == "matrix2mask":
+        offsets, C, fd = LAYOUTS["blocks" if form == "matrix2mask" else form]
+        nblk = len(offsets)
+        E = np.concatenate([E0 + float(o) for o in offsets])
+        T = np.block([[C[i][j] * H1m for j in range(nblk)] for i in range(nblk)])
+        S = np.zeros((nblk * D, nblk * D), dtype=bool)
+        for q in range(nblk):
+            # a fully diagonalised block keeps only its Fock-diagonal elements
+            S[q * D : (q + 1) * D, q * D : (q + 1) * D] = np.eye(D, dtype=bool) if q in fd else True
         if form == "matrix2mask":
             # everything is kept except the masked shifts in the off-diagonal matrix entries
             occ = np.array([space.occ(st_) for st_ in space.states])
@@ -376,7 +394,7 @@ def check_case(case, enforce_all=False):
                 if n >= 2 and boundary_cols and float(np.abs(B[:, [list(safe).index(c) for c in boundary_cols]]).max()) > 1e-9:
                     nontrivial_hit = True
     # ------------------------------------------------------------ operator identities through the model
-    if form not in ("blocks", "matrix2mask"):
+    if form not in LAYOUTS and form != "matrix2mask":
         Um = [mats[("U", 0, 0, n)] for n in range(K + 1)]
         Hm = [from_orth(np.diag(E0).astype(complex)), from_orth(H1m)]
         inner = space.safe((K + 1) * b["degree"] + 1)
